@@ -190,7 +190,7 @@ func vownerClass(err error) string {
 		return "err:same"
 	case has("scope not found"), has("no scopes found"), has("authorization not found"):
 		return "err:notfound"
-	case has("at least one"), has("invalid coins"), has("invalid scope owners"), has("invalid value owner address"),
+	case has("at least one"), has("invalid coins"), has("invalid from address"), has("invalid to address"), has("invalid scope owners"), has("invalid value owner address"),
 		has("invalid existing value owner address"), has("invalid proposed value owner address"):
 		return "err:invalid"
 	default:
@@ -282,7 +282,29 @@ func (e *vownerEnv) dump() string {
 		if found {
 			ex = "1"
 		}
-		parts = append(parts, fmt.Sprintf("%s=%s;%s;%s;%s;%s", n, ex, JoinOr(owners, "|"), vo, JoinOr(hs, "|"), supply.String()))
+		// the query side: the Scope query's value owner, and whose ValueOwnership query lists the scope
+		qvo := "-"
+		if resp, err := e.app.MetadataKeeper.Scope(e.ctx, &mdtypes.ScopeRequest{ScopeId: id.String()}); err == nil && resp != nil && resp.Scope != nil && resp.Scope.Scope != nil {
+			if a := resp.Scope.Scope.ValueOwnerAddress; a != "" {
+				qvo = e.sym(a)
+			}
+		}
+		var listed []string
+		uid, _ := id.ScopeUUID()
+		for _, an := range vownerAll {
+			resp, err := e.app.MetadataKeeper.ValueOwnership(e.ctx, &mdtypes.ValueOwnershipRequest{Address: e.addr[an].String()})
+			if err != nil || resp == nil {
+				listed = append(listed, "!"+an)
+				continue
+			}
+			for _, u := range resp.ScopeUuids {
+				if u == uid.String() {
+					listed = append(listed, an)
+				}
+			}
+		}
+		sort.Strings(listed)
+		parts = append(parts, fmt.Sprintf("%s=%s;%s;%s;%s;%s;%s;%s", n, ex, JoinOr(owners, "|"), vo, JoinOr(hs, "|"), supply.String(), qvo, JoinOr(listed, "|")))
 	}
 	var gs []string
 	urlMT := map[string]string{}
@@ -550,25 +572,59 @@ func vownerUniq(xs []string) []string {
 	return res
 }
 
+// anyGrants lists, for the near-miss generator, accounts tied to n by a grant that must NOT
+// count: grantees of n for another message type, and granters who granted TO n.
+func (e *vownerEnv) nearMissFor(n, mt string) []string {
+	var res []string
+	for _, a := range []string{"A", "B", "C", "D", "E", "K"} {
+		for _, other := range vownerMTs {
+			if other != mt {
+				if au, _ := e.app.AuthzKeeper.GetAuthorization(e.ctx, e.addr[a], e.addr[n], vownerMTURL[other]); au != nil {
+					res = append(res, a)
+				}
+			}
+		}
+		if au, _ := e.app.AuthzKeeper.GetAuthorization(e.ctx, e.addr[n], e.addr[a], vownerMTURL[mt]); au != nil {
+			res = append(res, a)
+		}
+	}
+	return res
+}
+
 // signersFor builds a signer list for a message of type mt that needs the consent of `need`
 // and moves tokens to `target`; mode decides how faithful it is.
-func (e *vownerEnv) signersFor(rng *RNG, out *Out, mt string, need []string, target string) string {
+func (e *vownerEnv) signersFor(rng *RNG, out *Out, pre func(op string), mt string, need []string, target string) string {
 	people := []string{"A", "B", "C", "D", "E", "K"}
+	plain := []string{"A", "B", "C", "D", "E"}
 	mode := rng.Intn(100)
 	var s []string
 	switch {
-	case mode < 62: // what the code asks for, through any of the routes
+	case mode < 58: // what the code asks for, through any of the routes
 		for _, n := range need {
 			switch {
 			case contains(vownerMarkers, n):
 				if w := e.whoHas(n, markertypes.Access_Withdraw); len(w) > 0 {
 					s = append(s, Pick(rng, w))
+				} else if rng.Chance(45) { // set the permission up first
+					x := Pick(rng, plain)
+					pre(fmt.Sprintf("access marker=%s addr=%s perms=%s", n, x, Pick(rng, []string{"withdraw", "withdraw|deposit"})))
+					s = append(s, x)
 				} else if rng.Chance(50) {
 					s = append(s, Pick(rng, people))
 				}
+			case n == "MOD" || n == "FEE":
+				s = append(s, n)
 			default:
-				if g := e.granteesOf(n, mt); len(g) > 0 && rng.Chance(60) {
+				if g := e.granteesOf(n, mt); len(g) > 0 && rng.Chance(70) {
 					s = append(s, Pick(rng, g))
+				} else if rng.Chance(22) { // grant first, then let the grantee sign
+					x := Pick(rng, people)
+					if x != n {
+						pre(fmt.Sprintf("grant granter=%s grantee=%s mt=%s count=%d", n, x, mt, Pick(rng, []int{0, 1, 1, 2})))
+						s = append(s, x)
+					} else {
+						s = append(s, n)
+					}
 				} else {
 					s = append(s, n)
 				}
@@ -577,13 +633,71 @@ func (e *vownerEnv) signersFor(rng *RNG, out *Out, mt string, need []string, tar
 		if target == "MR" {
 			if d := e.whoHas("MR", markertypes.Access_Deposit); len(d) > 0 && rng.Chance(85) {
 				s = append(s, Pick(rng, d))
+			} else if len(d) == 0 && rng.Chance(40) {
+				x := Pick(rng, plain)
+				if len(s) > 0 && rng.Chance(60) && contains(plain, s[0]) {
+					x = s[0]
+				}
+				keep := ""
+				if e.hasAccess("MR", x, markertypes.Access_Withdraw) {
+					keep = "withdraw|"
+				}
+				pre(fmt.Sprintf("access marker=MR addr=%s perms=%sdeposit", x, keep))
+				s = append(s, x)
 			}
 		}
 		if len(s) == 0 {
 			s = append(s, Pick(rng, people))
 		}
 		out.Count("signers:as-required")
-	case mode < 74: // one needed signature missing
+	case mode < 68: // near miss: one needed party replaced by somebody almost entitled
+		for _, n := range need {
+			s = append(s, n)
+		}
+		if len(s) > 0 {
+			i := rng.Intn(len(s))
+			n := s[i]
+			var alt []string
+			if contains(vownerMarkers, n) {
+				alt = e.whoHas(n, markertypes.Access_Deposit) // deposit is not withdraw
+				if len(alt) == 0 && rng.Chance(50) {
+					x := Pick(rng, plain)
+					if !e.hasAccess(n, x, markertypes.Access_Withdraw) {
+						pre(fmt.Sprintf("access marker=%s addr=%s perms=deposit", n, x))
+						alt = []string{x}
+					}
+				}
+			} else if n != "MOD" && n != "FEE" {
+				alt = e.nearMissFor(n, mt)
+				if len(alt) == 0 && rng.Chance(60) {
+					x := Pick(rng, people)
+					if x != n && len(e.granteesOf(n, mt)) == 0 {
+						if rng.Chance(50) { // a grant for another message type
+							other := Pick(rng, vownerMTs)
+							if other != mt {
+								pre(fmt.Sprintf("grant granter=%s grantee=%s mt=%s count=0", n, x, other))
+								alt = []string{x}
+							}
+						} else if au, _ := e.app.AuthzKeeper.GetAuthorization(e.ctx, e.addr[x], e.addr[n], vownerMTURL[mt]); au == nil && contains(plain, n) {
+							// a grant in the wrong direction
+							pre(fmt.Sprintf("grant granter=%s grantee=%s mt=%s count=0", x, n, mt))
+							alt = []string{x}
+						}
+					}
+				}
+			}
+			if len(alt) > 0 {
+				s[i] = Pick(rng, alt)
+				out.Count("signers:near-miss")
+			} else {
+				s = append(s[:i], s[i+1:]...)
+				out.Count("signers:one-missing")
+			}
+		}
+		if len(s) == 0 {
+			s = append(s, Pick(rng, people))
+		}
+	case mode < 76: // one needed signature missing
 		for _, n := range need {
 			s = append(s, n)
 		}
@@ -648,6 +762,25 @@ func resClassV(r string) string {
 	return strings.Fields(r)[0]
 }
 
+type vownerGrant struct{ granter, grantee, mt string }
+
+func (e *vownerEnv) grants() []vownerGrant {
+	var res []vownerGrant
+	urlMT := map[string]string{}
+	for k, v := range vownerMTURL {
+		urlMT[v] = k
+	}
+	e.app.AuthzKeeper.IterateGrants(e.ctx, func(granter, grantee sdk.AccAddress, g authz.Grant) bool {
+		if a, err := g.GetAuthorization(); err == nil {
+			if mt, ok := urlMT[a.MsgTypeURL()]; ok {
+				res = append(res, vownerGrant{e.sym(granter.String()), e.sym(grantee.String()), mt})
+			}
+		}
+		return false
+	})
+	return res
+}
+
 func driveVowner(t *testing.T, rng *RNG, n int, out *Out) {
 	e := vownerSetup(t)
 	people := []string{"A", "B", "C", "D", "E", "K"}
@@ -665,6 +798,11 @@ func driveVowner(t *testing.T, rng *RNG, n int, out *Out) {
 			return r
 		}
 		emit("dump")
+		pre := func(op string) { // a preparatory environment op (grant / marker access) and its dump
+			emit(op)
+			emit("dump")
+			out.Count("prepared:" + strings.Fields(op)[0])
+		}
 		steps := 10 + rng.Intn(16)
 		for s := 0; s < steps; s++ {
 			v := e.view()
@@ -677,13 +815,17 @@ func driveVowner(t *testing.T, rng *RNG, n int, out *Out) {
 					existing = append(existing, id)
 				}
 			}
-			before := e.view()
-			var r, kind string
-			switch k := rng.Intn(100); {
+			before := v
+			var r, kind, signers string
+			k := rng.Intn(100)
+			if len(held) == 0 && k >= 30 && k < 75 && rng.Chance(70) {
+				k = 0 // nothing to move yet: write instead
+			}
+			switch {
 			case k < 30 || len(existing) == 0: // write scope
 				kind = "write"
 				id := Pick(rng, vownerIDs)
-				if len(existing) > 0 && rng.Chance(65) {
+				if len(existing) > 0 && rng.Chance(60) {
 					id = Pick(rng, existing)
 				}
 				var owners []string
@@ -706,7 +848,7 @@ func driveVowner(t *testing.T, rng *RNG, n int, out *Out) {
 					}
 				}
 				vo := "-"
-				if rng.Chance(58) {
+				if (!v.exists[id] && rng.Chance(80)) || (v.exists[id] && rng.Chance(55)) {
 					vo = vownerPickTarget(rng, v.holder[id])
 				}
 				var need []string
@@ -725,7 +867,8 @@ func driveVowner(t *testing.T, rng *RNG, n int, out *Out) {
 				if voChange {
 					tgt = vo
 				}
-				r = emit(fmt.Sprintf("write id=%s owners=%s vo=%s signers=%s", id, JoinOr(owners, "|"), vo, e.signersFor(rng, out, "write", vownerUniq(need), tgt)))
+				signers = e.signersFor(rng, out, pre, "write", vownerUniq(need), tgt)
+				r = emit(fmt.Sprintf("write id=%s owners=%s vo=%s signers=%s", id, JoinOr(owners, "|"), vo, signers))
 				switch {
 				case !v.exists[id] && vo != "-":
 					out.Count("write:new+vo")
@@ -740,16 +883,26 @@ func driveVowner(t *testing.T, rng *RNG, n int, out *Out) {
 				default:
 					out.Count("write:no-change")
 				}
-			case k < 45: // update value owners
+			case k < 46: // update value owners
 				kind = "updvo"
 				var ids []string
 				pool := held
-				if len(pool) == 0 || rng.Chance(10) {
+				if len(pool) == 0 || rng.Chance(8) {
 					pool = vownerIDs
 				}
 				cnt := 1 + rng.Intn(3)
-				for i := 0; i < cnt; i++ {
-					ids = append(ids, Pick(rng, pool))
+				if rng.Chance(35) { // prefer scopes with different current owners
+					seen := map[string]bool{}
+					for _, id := range pool {
+						if hh := v.holder[id]; hh != "" && !seen[hh] {
+							seen[hh] = true
+							ids = append(ids, id)
+						}
+					}
+				} else {
+					for i := 0; i < cnt; i++ {
+						ids = append(ids, Pick(rng, pool))
+					}
 				}
 				if !rng.Chance(5) {
 					ids = vownerUniq(ids)
@@ -764,32 +917,35 @@ func driveVowner(t *testing.T, rng *RNG, n int, out *Out) {
 						need = append(need, hh)
 					}
 				}
-				r = emit(fmt.Sprintf("updvo ids=%s vo=%s signers=%s", JoinOr(ids, "|"), vo, e.signersFor(rng, out, "updvo", vownerUniq(need), vo)))
+				signers = e.signersFor(rng, out, pre, "updvo", vownerUniq(need), vo)
+				r = emit(fmt.Sprintf("updvo ids=%s vo=%s signers=%s", JoinOr(ids, "|"), vo, signers))
 				out.Count(fmt.Sprintf("updvo:scopes=%d,owners=%d", len(ids), len(vownerUniq(need))))
-			case k < 53: // migrate
+			case k < 54: // migrate
 				kind = "migrate"
 				from := Pick(rng, vownerAll)
-				if len(held) > 0 && rng.Chance(85) {
+				if len(held) > 0 && rng.Chance(88) {
 					from = v.holder[Pick(rng, held)]
 				}
 				to := vownerPickTarget(rng, from)
-				r = emit(fmt.Sprintf("migrate from=%s to=%s signers=%s", from, to, e.signersFor(rng, out, "migrate", []string{from}, to)))
-			case k < 61: // delete
+				signers = e.signersFor(rng, out, pre, "migrate", []string{from}, to)
+				r = emit(fmt.Sprintf("migrate from=%s to=%s signers=%s", from, to, signers))
+			case k < 62: // delete
 				kind = "delete"
 				id := Pick(rng, vownerIDs)
-				if len(existing) > 0 && rng.Chance(85) {
+				if len(existing) > 0 && rng.Chance(88) {
 					id = Pick(rng, existing)
 				}
 				need := append([]string{}, v.owners[id]...)
 				if v.holder[id] != "" {
 					need = append(need, v.holder[id])
 				}
-				r = emit(fmt.Sprintf("delete id=%s signers=%s", id, e.signersFor(rng, out, "delete", vownerUniq(need), "")))
+				signers = e.signersFor(rng, out, pre, "delete", vownerUniq(need), "")
+				r = emit(fmt.Sprintf("delete id=%s signers=%s", id, signers))
 			case k < 75: // bank send of scope tokens
 				kind = "send"
 				from := Pick(rng, people)
 				var ids []string
-				if len(held) > 0 && rng.Chance(85) {
+				if len(held) > 0 && rng.Chance(90) {
 					id := Pick(rng, held)
 					from = v.holder[id]
 					ids = append(ids, id)
@@ -798,7 +954,7 @@ func driveVowner(t *testing.T, rng *RNG, n int, out *Out) {
 							ids = append(ids, o)
 						}
 					}
-					if rng.Chance(12) { // somebody else tries to send it
+					if rng.Chance(10) { // somebody else tries to send it
 						from = Pick(rng, people)
 					}
 				} else {
@@ -810,25 +966,33 @@ func driveVowner(t *testing.T, rng *RNG, n int, out *Out) {
 				if rng.Chance(2) {
 					ids = nil
 				}
+				signers = from
 				r = emit(fmt.Sprintf("send from=%s to=%s ids=%s", from, vownerPickTarget(rng, ""), JoinOr(ids, "|")))
 			case k < 88: // authz grant / revoke
 				kind = "grant"
 				granter := Pick(rng, people)
-				if rng.Chance(70) {
-					var cands []string
-					for _, id := range existing {
-						cands = append(cands, v.owners[id]...)
-						if hh := v.holder[id]; hh != "" && !contains(vownerMarkers, hh) && hh != "MOD" && hh != "FEE" {
-							cands = append(cands, hh, hh)
-						}
-					}
-					if len(cands) > 0 {
-						granter = Pick(rng, cands)
+				grantee := Pick(rng, people)
+				var cands []string
+				for _, id := range existing {
+					cands = append(cands, v.owners[id]...)
+					if hh := v.holder[id]; hh != "" && !contains(vownerMarkers, hh) && hh != "MOD" && hh != "FEE" {
+						cands = append(cands, hh, hh)
 					}
 				}
-				grantee := Pick(rng, people)
+				if len(cands) > 0 {
+					switch x := rng.Intn(100); {
+					case x < 65:
+						granter = Pick(rng, cands)
+					case x < 80: // the reverse direction: somebody grants TO a holder/owner
+						grantee = Pick(rng, cands)
+					}
+				}
 				mt := Pick(rng, vownerMTs)
-				if rng.Chance(18) {
+				if gs := e.grants(); rng.Chance(18) {
+					if len(gs) > 0 && rng.Chance(85) {
+						g := Pick(rng, gs)
+						granter, grantee, mt = g.granter, g.grantee, g.mt
+					}
 					r = emit(fmt.Sprintf("revoke granter=%s grantee=%s mt=%s", granter, grantee, mt))
 				} else if granter != grantee {
 					r = emit(fmt.Sprintf("grant granter=%s grantee=%s mt=%s count=%d", granter, grantee, mt, Pick(rng, []int{0, 0, 1, 1, 2})))
@@ -850,28 +1014,37 @@ func driveVowner(t *testing.T, rng *RNG, n int, out *Out) {
 				continue
 			}
 			emit("dump")
-			// distribution of what actually happened to the tokens
+			// distribution of what actually happened to the tokens, and by which route
 			if r == "ok" {
 				after := e.view()
+				sg := vownerSplit(signers)
 				for _, id := range vownerIDs {
 					b, a := before.holder[id], after.holder[id]
+					if b == a {
+						continue
+					}
 					switch {
-					case b == a:
 					case b == "":
 						out.Count("move:" + kind + ":mint")
-						if a == "MR" {
-							out.Count("move:to-restricted-marker")
-						}
 					case a == "":
 						out.Count("move:" + kind + ":burn")
 					default:
 						out.Count("move:" + kind + ":transfer")
-						if contains(vownerMarkers, b) {
-							out.Count("move:from-marker")
+					}
+					if b != "" {
+						switch {
+						case kind == "send":
+							out.Count("route:own-send")
+						case contains(sg, b):
+							out.Count("route:" + kind + ":signature")
+						case contains(vownerMarkers, b):
+							out.Count("route:" + kind + ":marker-withdraw")
+						default:
+							out.Count("route:" + kind + ":authz")
 						}
-						if a == "MR" {
-							out.Count("move:to-restricted-marker")
-						}
+					}
+					if a == "MR" {
+						out.Count("move:" + kind + ":to-restricted-marker")
 					}
 				}
 			}
